@@ -77,16 +77,16 @@ def Builder.opened (b : Builder) (name : Str) (attrs : List (Str × Str)) (sp : 
     cur := ⟨.element (b.env.internName name Env.noNamespace).2,
             (encodeAttrs (b.env.internName name Env.noNamespace).1 attrs).2.reverse⟩,
     parents := b.cur :: b.parents, nsStack := [] :: b.nsStack, eb := none,
-    seenIds := b.seenIds, idNodes := b.idNodes, spans := sp }
+    seenIds := b.seenIds, idNodes := b.idNodes, spans := sp, openPrefixes := [] :: b.openPrefixes }
 
 theorem run_start (b : Builder) (hr : Ready b) (name : StrSpan) (pstart : Nat) (junk : StrSpan) (attrs : List SAttr)
     (hw : attrsWell attrs) (tail : List Token) (lexErr : Option Nat) :
     ∃ b2 : Builder, b2.eb = some { (ElementBuilder.new ⟨[], pstart⟩ name) with attributes := attrs.map SAttr.builder } ∧
       b2.env = b.env ∧ b2.cur = b.cur ∧ b2.parents = b.parents ∧ b2.nsStack = b.nsStack ∧
-      b2.seenIds = b.seenIds ∧ b2.idNodes = b.idNodes ∧ b2.spans = b.spans ∧
+      b2.seenIds = b.seenIds ∧ b2.idNodes = b.idNodes ∧ b2.spans = b.spans ∧ b2.openPrefixes = b.openPrefixes ∧
       b.run (.elementStart ⟨[], pstart⟩ name junk :: (attrs.map SAttr.token ++ tail)) lexErr = b2.run tail lexErr := by
   refine ⟨{ b with eb := some { (ElementBuilder.new ⟨[], pstart⟩ name) with attributes := attrs.map SAttr.builder } },
-    rfl, rfl, rfl, rfl, rfl, rfl, rfl, rfl, ?_⟩
+    rfl, rfl, rfl, rfl, rfl, rfl, rfl, rfl, rfl, ?_⟩
   simp only [Builder.run, Builder.step]
   have := run_attrs tail lexErr attrs (b.element ⟨[], pstart⟩ name) (ElementBuilder.new ⟨[], pstart⟩ name) rfl hw.1
     (fun ab hab => by simp [ElementBuilder.new] at hab) (by simpa [ElementBuilder.new] using hw.2)
@@ -97,7 +97,7 @@ theorem openElement_plain (b b2 : Builder) (hr : Ready b) (name : StrSpan) (psta
     (hw : attrsWell attrs)
     (heb : b2.eb = some { (ElementBuilder.new ⟨[], pstart⟩ name) with attributes := attrs.map SAttr.builder })
     (henv : b2.env = b.env) (hcur : b2.cur = b.cur) (hpar : b2.parents = b.parents) (hns : b2.nsStack = b.nsStack)
-    (hsi : b2.seenIds = b.seenIds) (hid : b2.idNodes = b.idNodes) :
+    (hsi : b2.seenIds = b.seenIds) (hid : b2.idNodes = b.idNodes) (hop : b2.openPrefixes = b.openPrefixes) :
     ∃ sp, b2.openElement = .ok (b.opened name.text (attrs.map SAttr.denote) sp) := by
   have hname : elementNameId b2.env ([] :: b2.nsStack) [] name.text (⟨[], pstart⟩ : StrSpan).span =
       .ok (b.env.internName name.text 0) := by
@@ -126,7 +126,7 @@ theorem openElement_plain (b b2 : Builder) (hr : Ready b) (name : StrSpan) (psta
   dsimp only
   rw [hst]
   dsimp only
-  simp only [Builder.opened, he, hk, hs, hi, hcur, hpar, hns, hsi, hid, namespaceKids, List.map_nil,
+  simp only [Builder.opened, he, hk, hs, hi, hcur, hpar, hns, hsi, hid, hop, namespaceKids, List.map_nil,
     List.reverse_nil, List.append_nil]
   rfl
 
